@@ -77,6 +77,15 @@ def run(ctx):
             for bj, st, e in q.agg_sites(s, 'error::SolveError', 'ThreadOverflow'):
                 if any(c['kind'] == 'variant' and c['variants'] == ['None'] and from_cm(c['a']) for c in s.conds(bj)):
                     ok = True
+            # `.ok_or(SolveError::ThreadOverflow)` lowered to its match: Err(ThreadOverflow) built on the None edge
+            for bj, st, e in q.agg_sites(s, 'result::Result', 'Err'):
+                pay = strip_refs(e[2][0]) if e[2] else None
+                if pay is not None and pay[0] == 'agg' and pay[1].endswith('SolveError::ThreadOverflow') and \
+                        any(c['kind'] == 'variant' and c['variants'] == ['None'] and from_cm(c['a']) for c in s.conds(bj)):
+                    # ... and that Err is what the function returns (through `?` or directly), not something it recovers from
+                    dl = st['pl']['l']
+                    uses = [(kind, short(x['callee'].get('path') or '') if kind == 'arg' else '') for bk, kind, x in q.local_uses(s, dl)]
+                    ok = ok or dl == 0 or all(u in (('arg', 'branch'), ('arg', 'from_residual'), ('discr', ''), ('stmt', '')) for u in uses)
             for bj, tt, ee in q.calls_named(s, 'ok_or'):
                 if from_cm(ee[2][0]) and strip_refs(ee[2][1])[0] == 'agg' and strip_refs(ee[2][1])[1].endswith('SolveError::ThreadOverflow'):
                     uses = [short(x['callee'].get('path') or '') for bk, kind, x in q.local_uses(s, tt['dest']['l']) if kind == 'arg']
